@@ -15,40 +15,61 @@ inductive BPos
   | none
   | len (d : Bytes)
   | chunk (r : Rem)
+  | close (d : Bytes)     -- close-delimited: everything until the connection ends
 
 def BPos.enc : BPos → Bytes
   | .none => []
   | .len d => d
   | .chunk r => r.enc
+  | .close d => d
 
 def BPos.payload : BPos → Bytes
   | .none => []
   | .len d => d
   | .chunk r => r.payload
+  | .close d => d
 
 def BPos.reader : BPos → BodyReader
   | .none => .noBody
   | .len d => .len d.length
   | .chunk r => .chunked r.state
+  | .close _ => .close
 
 def BPos.good : BPos → Prop
   | .none => True
   | .len _ => True
   | .chunk r => r.wf ∧ r.atRest
+  | .close _ => True
 
-theorem BPos.ended_iff (b : BPos) (hb : b.good) : readerEnded b.reader = true ↔ b.enc = [] := by
+def BPos.isClose : BPos → Bool
+  | .close _ => true
+  | _ => false
+
+/-- the receive loop is over at this position: the framing says so, or — close-delimited — nothing is left
+    of the stream -/
+def BPos.over (b : BPos) (tail : Bytes) : Bool :=
+  match b with
+  | .close d => d.isEmpty && tail.isEmpty
+  | _ => readerEnded b.reader
+
+theorem BPos.over_iff (b : BPos) (tail : Bytes) (hb : b.good) (ht : b.isClose = true → tail = []) :
+    b.over tail = true ↔ b.enc = [] := by
   cases b with
-  | none => simp [BPos.reader, BPos.enc, readerEnded]
-  | len d => simp [BPos.reader, BPos.enc, readerEnded]
+  | none => simp [BPos.over, BPos.reader, BPos.enc, readerEnded]
+  | len d => simp [BPos.over, BPos.reader, BPos.enc, readerEnded]
   | chunk r =>
-    simp only [BPos.reader, BPos.enc, readerEnded]
+    simp only [BPos.over, BPos.reader, BPos.enc, readerEnded]
     rw [← rem_state_ended_iff r hb.2]
     simp
+  | close d =>
+    have := ht rfl
+    simp [BPos.over, BPos.enc, this]
 
 theorem BPos.reader_not_trailer (b : BPos) (hb : b.good) : b.reader ≠ .chunked .trailer := by
   cases b with
   | none => simp [BPos.reader]
   | len d => simp [BPos.reader]
+  | close d => simp [BPos.reader]
   | chunk r =>
     simp only [BPos.reader]
     intro e
@@ -61,14 +82,35 @@ theorem call_eq_of_reader (c : CallSt) (r : Option BodyReader) (h : c.reader = r
 
 /-- one read of the body, on any window of what remains (possibly reaching into the next message), into
     any output space: never fails, returns the next piece of the payload, consumes only body bytes -/
-theorem body_step (c : CallSt) (b : BPos) (hb : b.good) (hr : c.reader = some b.reader) (tail : Bytes) (m cap : Nat) :
+theorem body_step (c : CallSt) (b : BPos) (hb : b.good) (hr : c.reader = some b.reader) (tail : Bytes) (m cap : Nat)
+    (ht : b.isClose = true → tail = []) :
     ∃ (b' : BPos) (n : Nat) (out : Bytes),
       c.read ((b.enc ++ tail).take m) cap = ({ c with reader := some b'.reader }, .ok (n, out)) ∧
       b'.good ∧ n ≤ b.enc.length ∧ b.enc.drop n = b'.enc ∧ b.payload = out ++ b'.payload ∧ n ≤ m ∧
-      (b.enc.length ≤ m → 1 ≤ cap → readerEnded b.reader = false → 0 < n) := by
+      b'.isClose = b.isClose ∧
+      (b.enc.length ≤ m → 1 ≤ cap → b.enc ≠ [] → 0 < n) := by
   cases b with
+  | close d =>
+    simp only [BPos.reader, BPos.enc, BPos.payload] at hr ⊢
+    rw [C08_close_step c _ cap hr]
+    have htl : tail = [] := ht rfl
+    subst htl
+    generalize hk : min ((d ++ []).take m).length cap = k
+    have hwl : ((d ++ []).take m).length = min m d.length := by simp
+    have hkd : k ≤ d.length := by omega
+    refine ⟨.close (d.drop k), k, d.take k, ?_, trivial, hkd, rfl, by simp [BPos.payload], by omega, rfl, ?_⟩
+    · have hcr : ({ c with reader := some BodyReader.close } : CallSt) = c := call_eq_of_reader c _ hr
+      show (c, _) = (({ c with reader := some BodyReader.close } : CallSt), _)
+      rw [hcr]
+      congr 2
+      rw [List.take_take]
+      have : min k m = k := by omega
+      rw [this, List.take_append_of_le_length hkd]
+    · intro h1 h2 h3
+      have : d.length ≠ 0 := by intro e; exact h3 (List.eq_nil_of_length_eq_zero e)
+      omega
   | none =>
-    refine ⟨.none, 0, [], ?_, trivial, by simp, by simp [BPos.enc], by simp [BPos.payload], by omega, by simp [BPos.reader, readerEnded]⟩
+    refine ⟨.none, 0, [], ?_, trivial, by simp, by simp [BPos.enc], by simp [BPos.payload], by omega, rfl, by simp [BPos.enc]⟩
     simp only [BPos.reader] at hr ⊢
     unfold CallSt.read
     simp [hr, readerEnded]
@@ -82,14 +124,14 @@ theorem body_step (c : CallSt) (b : BPos) (hb : b.good) (hr : c.reader = some b.
       have : ((d ++ tail).take m).length ≤ m := by simp; omega
       omega
     have hkw : k ≤ ((d ++ tail).take m).length := by omega
-    refine ⟨.len (d.drop k), k, d.take k, ?_, trivial, hkd, rfl, by simp [BPos.payload], hkm, ?_⟩
+    refine ⟨.len (d.drop k), k, d.take k, ?_, trivial, hkd, rfl, by simp [BPos.payload], hkm, rfl, ?_⟩
     · simp only [BPos.reader, List.length_drop]
       congr 2
       rw [List.take_take]
       have : min k m = k := by omega
       rw [this, List.take_append_of_le_length hkd]
     · intro h1 h2 h3
-      have : d.length ≠ 0 := by simpa [readerEnded] using h3
+      have : d.length ≠ 0 := by intro e; exact h3 (List.eq_nil_of_length_eq_zero e)
       have hwl : ((d ++ tail).take m).length = min m (d.length + tail.length) := by simp
       omega
   | chunk r =>
@@ -99,9 +141,9 @@ theorem body_step (c : CallSt) (b : BPos) (hb : b.good) (hr : c.reader = some b.
     unfold callReadS
     by_cases he : r.state = .ended
     · have henc : r.enc = [] := (rem_state_ended_iff r hrest).mp he
-      refine ⟨.chunk r, 0, [], ?_, ⟨hwf, hrest⟩, by omega, by simp, by simp [BPos.payload], by omega, ?_⟩
+      refine ⟨.chunk r, 0, [], ?_, ⟨hwf, hrest⟩, by omega, by simp, by simp [BPos.payload], by omega, rfl, ?_⟩
       · simp [he, BPos.reader]
-      · intro _ _ h3; simp [readerEnded, he] at h3
+      · intro _ _ h3; exact absurd henc h3
     · have hne : (r.state == Dechunker.ended) = false := by simpa using he
       simp only [hne, Bool.false_eq_true, if_false]
       have htake : (r.enc ++ tail).take m = (r.enc ++ tail).take (min m (r.enc ++ tail).length) := by
@@ -112,7 +154,7 @@ theorem body_step (c : CallSt) (b : BPos) (hb : b.good) (hr : c.reader = some b.
         readChunkedS_inv (((r.enc ++ tail).take (min m (r.enc ++ tail).length)).length + 2) r hwf hrest tail
           (min m (r.enc ++ tail).length) cap c.stopBoundary (by omega) (by rw [hwl]; omega)
       rw [htake, hread]
-      refine ⟨.chunk r1, n1, o1, rfl, ⟨hwf1, hrest1⟩, hn1, hd1, hp1, by omega, ?_⟩
+      refine ⟨.chunk r1, n1, o1, rfl, ⟨hwf1, hrest1⟩, hn1, hd1, hp1, by omega, rfl, ?_⟩
       intro h1 h2 _
       exact hlive (by simp; omega) h2 he
 
@@ -120,17 +162,21 @@ theorem BPos.payload_nil (b : BPos) (hb : b.good) (he : b.enc = []) : b.payload 
   cases b with
   | none => rfl
   | len d => simpa [BPos.enc, BPos.payload] using he
+  | close d => simpa [BPos.enc, BPos.payload] using he
   | chunk r =>
     have hs : r.state = .ended := (rem_state_ended_iff r hb.2).mpr he
     cases r <;> simp [Rem.state] at hs
     rfl
 
-/-- readiness in the body state is exactly "the body reader has ended" -/
+/-- readiness in the body state: the body reader has ended — or the body is close-delimited (always ready) -/
 theorem canProceed_body (f : Flow) (b : BPos) (hs : f.st = .recvBody) (hh : f.holder = .recvBody)
-    (hr : f.call.reader = some b.reader) : f.canProceed = .ok (readerEnded b.reader) := by
+    (hr : f.call.reader = some b.reader) : f.canProceed = .ok (b.isClose || readerEnded b.reader) := by
   unfold Flow.canProceed
   simp only [hs, hh, hr]
-  cases b <;> simp [BPos.reader, readerEnded]
+  cases b <;> simp [BPos.reader, BPos.isClose, readerEnded]
+
+theorem reader_is_close (b : BPos) : (some b.reader == some BodyReader.close) = b.isClose := by
+  cases b <;> simp [BPos.reader, BPos.isClose]
 
 /-! ## the receive driver -/
 
@@ -154,7 +200,10 @@ def recvStep (hack : Bool) (stream : Bytes) (x : Flow × RecvObs) (s : IoStep) :
   | .recvBody =>
     match x.1.step hack (.bread ((stream.drop x.2.consumed).take s.m) s.cap) with
     | (f1, .bytes n out) =>
-      (if isOkTrue f1.canProceed then (f1.step hack .proceed).1 else f1,
+      -- proceed when the flow is ready; a close-delimited body is "ready" at any time, there the caller goes
+      -- on until the connection has ended (nothing is left of the stream)
+      (if isOkTrue f1.canProceed && (!(f1.call.reader == some .close) || (stream.drop (x.2.consumed + n)).isEmpty)
+         then (f1.step hack .proceed).1 else f1,
        { x.2 with consumed := x.2.consumed + n, body := x.2.body ++ out })
     | (f1, _) => (f1, { x.2 with faults := x.2.faults + 1 })
   | _ => x
@@ -190,13 +239,15 @@ def terminalSt (H : Head) : FState := if isRedirectStatus (some H.codeVal) then 
 
 /-- the invariant of the receive loop -/
 def RecvInv (H : Head) (b0 : BPos) (tail : Bytes) (f0 : Flow) (f : Flow) (o : RecvObs) : Prop :=
+  -- a close-delimited body ends where the stream ends: nothing follows it
+  (b0.isClose = true → tail = []) ∧
   o.faults = 0 ∧
   ((f = f0 ∧ o = {}) ∨
    (∃ b : BPos, b.good ∧ f.st = .recvBody ∧ f.holder = .recvBody ∧ f.call.reader = some b.reader ∧
       f.status = some H.codeVal ∧
       (H.enc ++ b0.enc ++ tail).drop o.consumed = b.enc ++ tail ∧
       o.consumed + b.enc.length = H.enc.length + b0.enc.length ∧
-      o.head = some H.parsed ∧ o.body ++ b.payload = b0.payload) ∨
+      o.head = some H.parsed ∧ o.body ++ b.payload = b0.payload ∧ b.isClose = b0.isClose) ∨
    (f.st = terminalSt H ∧ o.consumed = H.enc.length + b0.enc.length ∧ o.head = some H.parsed ∧ o.body = b0.payload))
 
 theorem call_head_prefix (hack : Bool) (H : Head) (b0 : BPos) (f0 : Flow) (S : RecvSetup hack H b0 f0) (c : CallSt)
@@ -247,9 +298,7 @@ theorem needBody_false (b0 : BPos) (h : needResponseBody (some b0.reader) = fals
     | nil => exact ⟨rfl, rfl⟩
     | cons x xs => simp [needResponseBody, BPos.reader] at h
   | chunk r => simp [needResponseBody, BPos.reader] at h
-
-theorem reader_ne_close (b : BPos) : (some b.reader == some BodyReader.close) = false := by
-  cases b <;> simp [BPos.reader]
+  | close d => simp [needResponseBody, BPos.reader] at h
 
 theorem flow_step_resp (hack : Bool) (f : Flow) (op : Op) (h : f.st = .recvResponse) :
     f.step hack op = stepRecvResponse hack f op := by unfold Flow.step; simp [h]
@@ -296,21 +345,36 @@ theorem recvStep_head_full (hack : Bool) (H : Head) (b0 : BPos) (tail : Bytes) (
   refine ⟨(stepRecvResponse hack f1 .proceed).1, ?_, ?_⟩
   · simp
   · unfold stepRecvResponse
-    simp only [hcp, h1r, reader_ne_close, Bool.false_eq_true, if_false]
+    simp only [hcp, h1r, reader_is_close]
     cases hnb : needResponseBody (some b0.reader) with
-    | true => simp [h1s, h1r]
+    | true =>
+      simp only [if_true]
+      cases hcl : b0.isClose with
+      | false => simp [h1s, h1r]
+      | true =>
+        simp only [if_true]
+        have hp := pushReason_ok f1.closeReasons .closeDelimited h1c
+        rcases hq : pushReason f1.closeReasons .closeDelimited with ⟨l, pr⟩
+        rw [hq] at hp
+        obtain ⟨hpr, _⟩ := hp
+        dsimp only at hpr
+        subst hpr
+        simp [h1s, h1r]
     | false => simp [h1s, h1r, terminalSt]
 
 theorem recvStep_body (hack : Bool) (stream : Bytes) (f : Flow) (o : RecvObs) (b : BPos) (tail : Bytes) (hb : b.good)
     (hst : f.st = .recvBody) (hh : f.holder = .recvBody) (hr : f.call.reader = some b.reader)
-    (hd : stream.drop o.consumed = b.enc ++ tail) (s : IoStep) :
+    (hd : stream.drop o.consumed = b.enc ++ tail) (s : IoStep) (ht : b.isClose = true → tail = []) :
     ∃ (f2 : Flow) (b' : BPos) (n : Nat) (out : Bytes),
       recvStep hack stream (f, o) s = (f2, { o with consumed := o.consumed + n, body := o.body ++ out }) ∧
       b'.good ∧ n ≤ b.enc.length ∧ b.enc.drop n = b'.enc ∧ b.payload = out ++ b'.payload ∧ f2.status = f.status ∧
-      (b.enc.length ≤ s.m → 1 ≤ s.cap → readerEnded b.reader = false → 0 < n) ∧
-      ((readerEnded b'.reader = false ∧ f2.st = .recvBody ∧ f2.holder = .recvBody ∧ f2.call.reader = some b'.reader) ∨
-       (readerEnded b'.reader = true ∧ f2.st = if isRedirectStatus f.status then .redirect else .cleanup)) := by
-  obtain ⟨b', n, out, hread, hb', hn, hdrop, hpay, _, hlive⟩ := body_step f.call b hb hr tail s.m s.cap
+      b'.isClose = b.isClose ∧
+      (b.enc.length ≤ s.m → 1 ≤ s.cap → b.enc ≠ [] → 0 < n) ∧
+      ((b'.over tail = false ∧ f2.st = .recvBody ∧ f2.holder = .recvBody ∧ f2.call.reader = some b'.reader) ∨
+       (b'.over tail = true ∧ f2.st = if isRedirectStatus f.status then .redirect else .cleanup)) := by
+  obtain ⟨b', n, out, hread, hb', hn, hdrop, hpay, _, hcl, hlive⟩ := body_step f.call b hb hr tail s.m s.cap ht
+  have hd' : stream.drop (o.consumed + n) = b'.enc ++ tail := by
+    rw [← List.drop_drop, hd, ← hdrop, List.drop_append_of_le_length hn]
   unfold recvStep
   simp only [hst]
   rw [flow_step_body hack f _ hst, hd]
@@ -320,6 +384,7 @@ theorem recvStep_body (hack : Bool) (stream : Bytes) (f : Flow) (o : RecvObs) (b
     simp [hh, hread]
   rw [hstep]
   dsimp only
+  rw [hd', reader_is_close]
   generalize hf1 : ({ f with call := { f.call with reader := some b'.reader } } : Flow) = f1
   have h1st : f1.st = .recvBody := by rw [← hf1]; exact hst
   have h1h : f1.holder = .recvBody := by rw [← hf1]; exact hh
@@ -327,52 +392,62 @@ theorem recvStep_body (hack : Bool) (stream : Bytes) (f : Flow) (o : RecvObs) (b
   have h1s : f1.status = f.status := by rw [← hf1]
   have hcp := canProceed_body f1 b' h1st h1h h1r
   rw [hcp]
-  cases he : readerEnded b'.reader with
+  have hcond : (isOkTrue (Except.ok (b'.isClose || readerEnded b'.reader)) && (!b'.isClose || (b'.enc ++ tail).isEmpty)) = b'.over tail := by
+    have hok : ∀ x : Bool, isOkTrue (Except.ok x) = x := by intro x; cases x <;> rfl
+    rw [hok]
+    cases b' <;> simp [BPos.isClose, BPos.over, BPos.enc, BPos.reader, readerEnded]
+    rename_i d
+    cases d <;> simp
+  rw [hcond]
+  cases he : b'.over tail with
   | false =>
-    refine ⟨f1, b', n, out, ?_, hb', hn, hdrop, hpay, h1s, hlive, Or.inl ⟨he, h1st, h1h, h1r⟩⟩
-    simp [isOkTrue]
+    refine ⟨f1, b', n, out, ?_, hb', hn, hdrop, hpay, h1s, hcl, hlive, Or.inl ⟨he, h1st, h1h, h1r⟩⟩
+    simp
   | true =>
-    refine ⟨(f1.step hack .proceed).1, b', n, out, ?_, hb', hn, hdrop, hpay, ?_, hlive, Or.inr ⟨he, ?_⟩⟩
-    · simp [isOkTrue]
-    · rw [flow_step_body hack f1 _ h1st]; unfold stepRecvBody; simp [hcp, he, h1s]
-    · rw [flow_step_body hack f1 _ h1st]; unfold stepRecvBody; simp [hcp, he, h1s]
+    have hcan : f1.canProceed = .ok true := by
+      rw [hcp]
+      cases b' <;> simp [BPos.isClose, BPos.over] at he ⊢ <;> simp [he]
+    refine ⟨(f1.step hack .proceed).1, b', n, out, ?_, hb', hn, hdrop, hpay, ?_, hcl, hlive, Or.inr ⟨he, ?_⟩⟩
+    · simp
+    · rw [flow_step_body hack f1 _ h1st]; unfold stepRecvBody; simp [hcan, h1s]
+    · rw [flow_step_body hack f1 _ h1st]; unfold stepRecvBody; simp [hcan, h1s]
 
 theorem recv_step_inv (hack : Bool) (H : Head) (b0 : BPos) (tail : Bytes) (f0 : Flow) (S : RecvSetup hack H b0 f0)
     (f : Flow) (o : RecvObs) (s : IoStep) (h : RecvInv H b0 tail f0 f o) :
     RecvInv H b0 tail f0 (recvStep hack (H.enc ++ b0.enc ++ tail) (f, o) s).1
       (recvStep hack (H.enc ++ b0.enc ++ tail) (f, o) s).2 := by
-  obtain ⟨hf0, hA | hB | hC⟩ := h
+  obtain ⟨htail, hf0, hA | hB | hC⟩ := h
   · -- head not yet returned
     obtain ⟨rfl, rfl⟩ := hA
     by_cases hm : s.m < H.enc.length
     · rw [recvStep_head_prefix hack H b0 tail f S s hm]
-      exact ⟨rfl, Or.inl ⟨rfl, rfl⟩⟩
+      exact ⟨htail, rfl, Or.inl ⟨rfl, rfl⟩⟩
     · obtain ⟨f2, hstep, h2s, h2r, hcase⟩ := recvStep_head_full hack H b0 tail f S s (by omega)
       rw [hstep]
-      refine ⟨rfl, Or.inr ?_⟩
+      refine ⟨htail, rfl, Or.inr ?_⟩
       rcases hcase with ⟨hnb, h2st, h2h⟩ | ⟨hnb, h2st⟩
-      · refine Or.inl ⟨b0, S.resp.hb, h2st, h2h, h2r, h2s, ?_, rfl, rfl, by simp⟩
+      · refine Or.inl ⟨b0, S.resp.hb, h2st, h2h, h2r, h2s, ?_, rfl, rfl, by simp, rfl⟩
         show (H.enc ++ b0.enc ++ tail).drop H.enc.length = _
         rw [List.append_assoc, List.drop_left]
       · obtain ⟨he, hp⟩ := needBody_false b0 hnb
         refine Or.inr ⟨h2st, ?_, rfl, ?_⟩
         · show H.enc.length = _; rw [he]; simp
         · show [] = _; rw [hp]
-  · obtain ⟨b, hb, hst, hh, hr, hstat, hd, hcons, hhead, hbody⟩ := hB
-    obtain ⟨f2, b', n, out, hstep, hb', hn, hdrop, hpay, h2s, _, hcase⟩ :=
-      recvStep_body hack (H.enc ++ b0.enc ++ tail) f o b tail hb hst hh hr hd s
+  · obtain ⟨b, hb, hst, hh, hr, hstat, hd, hcons, hhead, hbody, hbcl⟩ := hB
+    obtain ⟨f2, b', n, out, hstep, hb', hn, hdrop, hpay, h2s, hcl', _, hcase⟩ :=
+      recvStep_body hack (H.enc ++ b0.enc ++ tail) f o b tail hb hst hh hr hd s (by rw [hbcl]; exact htail)
     rw [hstep]
-    refine ⟨hf0, Or.inr ?_⟩
+    refine ⟨htail, hf0, Or.inr ?_⟩
     have hlen' : b'.enc.length = b.enc.length - n := by rw [← hdrop]; simp
     rcases hcase with ⟨he, h2st, h2h, h2r⟩ | ⟨he, h2st⟩
-    · refine Or.inl ⟨b', hb', h2st, h2h, h2r, by rw [h2s, hstat], ?_, ?_, hhead, ?_⟩
+    · refine Or.inl ⟨b', hb', h2st, h2h, h2r, by rw [h2s, hstat], ?_, ?_, hhead, ?_, by rw [hcl', hbcl]⟩
       · show (H.enc ++ b0.enc ++ tail).drop (o.consumed + n) = _
         rw [← List.drop_drop, hd, ← hdrop, List.drop_append_of_le_length hn]
       · show o.consumed + n + b'.enc.length = _
         omega
       · show o.body ++ out ++ b'.payload = _
         rw [List.append_assoc, ← hpay, hbody]
-    · have henc : b'.enc = [] := (BPos.ended_iff b' hb').mp he
+    · have henc : b'.enc = [] := (BPos.over_iff b' tail hb' (by rw [hcl', hbcl]; exact htail)).mp he
       have hp' : b'.payload = [] := BPos.payload_nil b' hb' henc
       refine Or.inr ⟨?_, ?_, hhead, ?_⟩
       · rw [h2st, hstat]; rfl
@@ -388,10 +463,10 @@ theorem recv_step_inv (hack : Bool) (H : Head) (b0 : BPos) (tail : Bytes) (f0 : 
         rw [hst]; unfold terminalSt; split <;> simp
       rcases this with e | e <;> simp [e]
     rw [hx]
-    exact ⟨hf0, Or.inr (Or.inr ⟨hst, h1, h2, h3⟩)⟩
+    exact ⟨htail, hf0, Or.inr (Or.inr ⟨hst, h1, h2, h3⟩)⟩
 
 theorem recv_run_inv (hack : Bool) (H : Head) (b0 : BPos) (tail : Bytes) (f0 : Flow) (S : RecvSetup hack H b0 f0)
-    (sched : List IoStep) :
+    (htail : b0.isClose = true → tail = []) (sched : List IoStep) :
     RecvInv H b0 tail f0 (recvRun hack (H.enc ++ b0.enc ++ tail) f0 sched).1 (recvRun hack (H.enc ++ b0.enc ++ tail) f0 sched).2 := by
   unfold recvRun
   have gen : ∀ (sched : List IoStep) (x : Flow × RecvObs), RecvInv H b0 tail f0 x.1 x.2 →
@@ -404,7 +479,7 @@ theorem recv_run_inv (hack : Bool) (H : Head) (b0 : BPos) (tail : Bytes) (f0 : F
       intro x hx
       rw [List.foldl_cons]
       exact ih _ (recv_step_inv hack H b0 tail f0 S x.1 x.2 s hx)
-  exact gen sched (f0, {}) ⟨rfl, Or.inl ⟨rfl, rfl⟩⟩
+  exact gen sched (f0, {}) ⟨htail, rfl, Or.inl ⟨rfl, rfl⟩⟩
 
 /-- the receive side is complete when the flow has left the two receive states -/
 def recvDone (f : Flow) : Bool := f.st == .redirect || f.st == .cleanup
@@ -426,7 +501,7 @@ theorem recv_step_progress (hack : Bool) (H : Head) (b0 : BPos) (tail : Bytes) (
     recvDone (recvStep hack (H.enc ++ b0.enc ++ tail) (f, o) s).1 = true ∨
     recvMeasure (H.enc.length + b0.enc.length) (recvStep hack (H.enc ++ b0.enc ++ tail) (f, o) s) <
       recvMeasure (H.enc.length + b0.enc.length) (f, o) := by
-  obtain ⟨hf0, hA | hB | hC⟩ := h
+  obtain ⟨htail, hf0, hA | hB | hC⟩ := h
   · obtain ⟨rfl, rfl⟩ := hA
     obtain ⟨f2, hstep, h2s, h2r, hcase⟩ := recvStep_head_full hack H b0 tail f S s (by omega)
     rw [hstep]
@@ -438,20 +513,17 @@ theorem recv_step_progress (hack : Bool) (H : Head) (b0 : BPos) (tail : Bytes) (
         (if FState.recvResponse = FState.recvResponse then 1 else 0) + (H.enc.length + b0.enc.length - 0)
       simp; omega
     · left; exact terminal_done H f2 h2st
-  · obtain ⟨b, hb, hst, hh, hr, hstat, hd, hcons, hhead, hbody⟩ := hB
-    obtain ⟨f2, b', n, out, hstep, hb', hn, hdrop, hpay, h2s, hlive, hcase⟩ :=
-      recvStep_body hack (H.enc ++ b0.enc ++ tail) f o b tail hb hst hh hr hd s
+  · obtain ⟨b, hb, hst, hh, hr, hstat, hd, hcons, hhead, hbody, hbcl⟩ := hB
+    obtain ⟨f2, b', n, out, hstep, hb', hn, hdrop, hpay, h2s, hcl', hlive, hcase⟩ :=
+      recvStep_body hack (H.enc ++ b0.enc ++ tail) f o b tail hb hst hh hr hd s (by rw [hbcl]; exact htail)
     rw [hstep]
     rcases hcase with ⟨he, h2st, h2h, h2r⟩ | ⟨he, h2st⟩
     · right
-      have hbne : readerEnded b.reader = false := by
-        cases hbe : readerEnded b.reader with
-        | false => rfl
-        | true =>
-          have e1 : b.enc = [] := (BPos.ended_iff b hb).mp hbe
-          have e2 : b'.enc = [] := by rw [← hdrop, e1]; simp
-          have := (BPos.ended_iff b' hb').mpr e2
-          rw [this] at he; cases he
+      have hbne : b.enc ≠ [] := by
+        intro e1
+        have e2 : b'.enc = [] := by rw [← hdrop, e1]; simp
+        have := (BPos.over_iff b' tail hb' (by rw [hcl', hbcl]; exact htail)).mpr e2
+        rw [this] at he; cases he
       have hpos := hlive (by omega) hcap hbne
       unfold recvMeasure
       simp only [h2st, hst]
@@ -522,7 +594,7 @@ theorem recv_live_aux (hack : Bool) (H : Head) (b0 : BPos) (tail : Bytes) (f0 : 
 theorem recvSpec_of_done (H : Head) (b0 : BPos) (tail : Bytes) (f0 f : Flow) (o : RecvObs) (hst0 : f0.st = .recvResponse)
     (h : RecvInv H b0 tail f0 f o) (hd : recvDone f = true) :
     o = recvSpec H b0 ∧ f.st = terminalSt H := by
-  obtain ⟨hf0, hA | hB | hC⟩ := h
+  obtain ⟨htail, hf0, hA | hB | hC⟩ := h
   · obtain ⟨rfl, rfl⟩ := hA
     simp [recvDone, hst0] at hd
   · obtain ⟨b, hb, hst, _⟩ := hB
@@ -538,10 +610,10 @@ theorem recv_safe_of_inv (H : Head) (b0 : BPos) (tail : Bytes) (f0 f : Flow) (o 
     o.faults = 0 ∧ o.consumed ≤ H.enc.length + b0.enc.length ∧ o.body <+: b0.payload ∧
     (o.head = none ∨ o.head = some H.parsed) ∧
     (recvDone f = false → (f.st = .recvResponse ∨ f.st = .recvBody) ∧ o.consumed ≤ H.enc.length + b0.enc.length) := by
-  obtain ⟨hf0, hA | hB | hC⟩ := h
+  obtain ⟨htail, hf0, hA | hB | hC⟩ := h
   · obtain ⟨rfl, rfl⟩ := hA
     refine ⟨rfl, Nat.zero_le _, List.nil_prefix, Or.inl rfl, fun _ => ⟨Or.inl hst0, Nat.zero_le _⟩⟩
-  · obtain ⟨b, hb, hst, hh, hr, hstat, hd, hcons, hhead, hbody⟩ := hB
+  · obtain ⟨b, hb, hst, hh, hr, hstat, hd, hcons, hhead, hbody, _⟩ := hB
     refine ⟨hf0, by omega, ⟨b.payload, hbody⟩, Or.inr hhead, fun _ => ⟨Or.inr hst, by omega⟩⟩
   · obtain ⟨hst, h1, h2, h3⟩ := hC
     refine ⟨hf0, by omega, by rw [h3]; exact List.prefix_refl _, Or.inr h2, ?_⟩
@@ -573,4 +645,10 @@ theorem recvStep_shift (hack : Bool) (pre s : Bytes) (f : Flow) (o : RecvObs) (s
   · rw [hw]
     rcases f.step hack (.bread ((s.drop o.consumed).take st.m) st.cap) with ⟨f1, res⟩
     cases res <;> try rfl
+    rename_i n out
+    have hw2 : (pre ++ s).drop ((o.shift pre.length).consumed + n) = s.drop (o.consumed + n) := by
+      show (pre ++ s).drop (o.consumed + pre.length + n) = _
+      rw [Nat.add_right_comm]; exact drop_shift pre s (o.consumed + n)
+    dsimp only
+    rw [hw2]
     simp [RecvObs.shift, Nat.add_right_comm]
